@@ -672,7 +672,31 @@ func ruleBitFlags(c *Ctx, p *core.Program, pairs []msgPair, rule string) {
 	n := 0
 	for _, mp := range pairs {
 		enc, dec := map[string]int64{}, map[string]int64{}
-		for _, b := range mp.enc.Blocks {
+		// the codec and the methods of the same type it calls (flags may be packed in a helper)
+		family := func(root *ssa.Function) []*ssa.Function {
+			out := []*ssa.Function{root}
+			recvOf := func(f *ssa.Function) *types.Named {
+				if o := fnObj(f); o != nil {
+					return core.RecvNamed(o)
+				}
+				return nil
+			}
+			rn := recvOf(root)
+			for g := range core.StaticReach(root, 2) {
+				if gn := recvOf(g); g != root && g.Blocks != nil && rn != nil && gn != nil && gn.Obj() == rn.Obj() {
+					out = append(out, g)
+				}
+			}
+			return out
+		}
+		var encBlocks, decBlocks []*ssa.BasicBlock
+		for _, f := range family(mp.enc) {
+			encBlocks = append(encBlocks, f.Blocks...)
+		}
+		for _, f := range family(mp.dec) {
+			decBlocks = append(decBlocks, f.Blocks...)
+		}
+		for _, b := range encBlocks {
 			for _, in := range b.Instrs {
 				bo, ok := in.(*ssa.BinOp)
 				if !ok || bo.Op != token.OR {
@@ -694,7 +718,7 @@ func ruleBitFlags(c *Ctx, p *core.Program, pairs []msgPair, rule string) {
 				}
 			}
 		}
-		for _, b := range mp.dec.Blocks {
+		for _, b := range decBlocks {
 			for _, in := range b.Instrs {
 				st, ok := in.(*ssa.Store)
 				if !ok {
